@@ -312,7 +312,7 @@ func (matrix *DenseInt16Matrix) ConstSlice(rfrom, rto, cfrom, cto int) ConstMatr
 }
 func (matrix *DenseInt16Matrix) ConstRow(i int) ConstVector {
   var v []int16
-  if matrix.transposed {
+  if matrix.transposed || matrix.cols == 0 {
     v = make([]int16, matrix.cols)
     for j := 0; j < matrix.cols; j++ {
       v[j] = matrix.values[matrix.index(i, j)]
@@ -325,7 +325,7 @@ func (matrix *DenseInt16Matrix) ConstRow(i int) ConstVector {
 }
 func (matrix *DenseInt16Matrix) ConstCol(j int) ConstVector {
   var v []int16
-  if matrix.transposed {
+  if matrix.transposed && matrix.rows > 0 {
     j = matrix.index(0, j)
     v = matrix.values[j:j + matrix.rows]
   } else {
